@@ -6,18 +6,22 @@ import core
 import gen
 
 
-def harness_spec(D, periodic, omp=True, wide=False):
-    name = "h_tsm_%d_%d%s%s" % (D, periodic, "_omp" if omp else "", "_w64" if wide else "")
+def harness_spec(D, periodic, omp=True, wide=False, starpu=False):
+    name = "h_tsm_%d_%d%s%s%s" % (D, periodic, "_omp" if omp else "", "_w64" if wide else "", "_starpu" if starpu else "")
     flags = ["-DDIM=%d" % D, "-DPERIODIC=%d" % periodic] + (["-DSLOTBITS=64"] if wide else [])
     srcs = ["h_tsm.cpp"]
     if omp:
         flags += ["-DUSE_OMP", "-fopenmp"]
         srcs.append("mock_gomp.cpp")
+    if starpu:
+        import os
+        flags += ["-DUSE_STARPU", "-I" + os.path.join(common.VERIF, "harness", "mock_starpu")]
+        srcs.append("mock_starpu.cpp")
     return {"name": name, "sources": srcs, "flags": flags}
 
 
-def build(configs, omp=True, wide=False):
-    specs = {c: harness_spec(c[0], c[1], omp, wide) for c in sorted(set(configs))}
+def build(configs, omp=True, wide=False, starpu=False):
+    specs = {c: harness_spec(c[0], c[1], omp, wide, starpu) for c in sorted(set(configs))}
     res = common.build_many(list(specs.values()))
     ok, bad = {}, {}
     for c, s in specs.items():
